@@ -144,4 +144,9 @@ VARIANTS = [
 
     dict(name="c10-copy-through-instance-receiver", property="C10", rule="C10-C", file="src/pyrtma/message.py",
          old="            type(m.data).from_buffer_copy(m.data),", new="            m.data.from_buffer_copy(m.data),"),
+
+    # ---------------- wave 6 ----------------
+    dict(name="c10-header-decoded-with-validation-off", property="C10", rule="C10-V", file="src/pyrtma/message.py",
+         old='        hdr_cls = get_header_cls()\n        hdr = hdr_cls.from_dict(d["header"])\n',
+         new='        from .validators import disable_message_validation\n        hdr_cls = get_header_cls()\n        with disable_message_validation():\n            hdr = hdr_cls.from_dict(d["header"])\n'),
 ]
